@@ -22,6 +22,27 @@ theorem etwin_preserves_wmsafe [DecidableEq κ] (c : Cfg) (hS : 0 < c.slide)
   apply op_wmsafe c hS es none WindowOp.State.init _ h
   intro p hp; simp [WindowOp.State.init] at hp
 
+/-- **Boundary `ts = last watermark`.** `alloc_windows` asserts `ts >= last_watermark`, i.e. the code
+    accepts an element stamped exactly the last watermark although the engine's contract (C06,
+    `wmSafeOk`) requires it to be strictly later. Such an input is a contract violation of the
+    *upstream*; nevertheless the operator's output stays (strictly) watermark-safe: under the lax
+    contract `wmSafeLaxOk` (elements `≥`, watermarks `>` the last watermark) every result is stamped
+    strictly after the last forwarded watermark. -/
+theorem etwin_preserves_wmsafe_lax [DecidableEq κ] (c : Cfg) (hS : 0 < c.slide)
+    (es : List (Elem (κ × α))) (h : wmSafeLaxOk es = true) :
+    wmSafeOk (WindowOp.run (mgr c) es) = true := by
+  apply op_wmsafe_lax c hS es none WindowOp.State.init _ h
+  intro p hp; simp [WindowOp.State.init] at hp
+
+/-- the boundary on a concrete trace: `Timestamped(_, 13)` after `Watermark(13)` is accepted
+    (no panic), lands in the window [13, 23) and is emitted stamped 23 -/
+example :
+    let es : List (Elem (Nat × Nat)) := [.ts (0, 1) 3, .wm 13, .ts (0, 2) 13, .far, .term]
+    wmSafeOk es = false ∧ wmSafeLaxOk es = true ∧
+    (WindowOp.stateAfter (mgr ⟨10, 10⟩) WindowOp.State.init es).panic = none ∧
+    WindowOp.run (mgr ⟨10, 10⟩) es = [.ts (0, [(1, 3)]) 13, .wm 13, .ts (0, [(2, 13)]) 23, .far, .term] := by
+  decide
+
 /-- the invariant behind it, one step: after `Watermark(w)` every open window ends after `w`,
     and what `Watermark(w)` emits is stamped `≤ w` but after the previous watermark `g` -/
 theorem etwin_watermark_step (c : Cfg) (hS : 0 < c.slide) (g : Option Int) (st : State α) (w : Int)
